@@ -226,7 +226,12 @@ func metricEngine(seed uint64, tier string, _ []string) {
 		}
 		var contents []string
 		s2 := set
-		for s2.Len() > 0 {
+		for guard := set.Len() + 1; s2.Len() > 0; guard-- {
+			if guard == 0 {
+				// with an inconsistent order the set does not find its own minimum any more: do not spin on it
+				emit("oracle C18 sorted-set-cannot-delete-its-own-minimum target=%s ops=%s stuck-at=%s len=%d", hx(tg), strings.Join(ops, " "), amiStr(s2.Next()), s2.Len())
+				break
+			}
 			x := s2.Next()
 			contents = append(contents, amiStr(x))
 			s2 = s2.Delete(x)
